@@ -3,6 +3,7 @@
    Statements of the machine-checked theorems this property's check relies on.  Each statement is
    spelled out here and proved from the lemma of the same name under `Peppi/` (generated once by
    `bin/mkprops.py`, then kept as source).  What is proved and what is partial: DESIGN.md §4. -/
+import Peppi.Lemmas.Unified
 import Peppi.Lemmas.C04A
 import Peppi.Lemmas.C04B
 import Peppi.Lemmas.C04C
@@ -12,6 +13,13 @@ import Peppi.Lemmas.PortMap
 import Peppi.PremisesViews
 set_option linter.unusedVariables false
 namespace Peppi.Props.C04
+
+/- from `Peppi.Lemmas.Unified` -/
+open Extracted in
+theorem C04_any (T : TextOracle) (r : Replay) (s : Start) (gk : Option GeckoBlocks) (h : r.WFAny T s gk) :
+    ∃ ge : Option End, r.fend.map gameEnd = ge.map Res.ok ∧
+      readP T {} (r.encodeAny s.version (portOccupancy s) gk) = .ok (r.gameAny s ge gk, []) :=
+  _root_.Peppi.C04_any T r s gk h
 
 /- from `Peppi.Lemmas.C04A` -/
 open Extracted in
